@@ -23,8 +23,9 @@ a `_partial` for the strict reading:
   makes a resumed epoch count as "an item was requested";
 * F2 `SDLApi.refines_ref_statement`: a state taken after the last batch but before `StopIteration`
   resumes into an empty epoch.
-And one for C08: F3 `Loader.get_transparent_statement`: `state_dict()` before the first `iter()`, then
-`load_state_dict`, then `state_dict()` returns the state of the first iterator, not the loaded one.
+(A third one, F3 — `state_dict()`, `load_state_dict(t)`, `state_dict()` on a new loader returned the state of
+the iterator the first call created — was repaired in the code: `load_state_dict` now drops such an
+iterator, and `Loader.get_transparent` holds at full strength.)
 -/
 namespace TDV.Loader
 open TDV.Node
@@ -212,44 +213,37 @@ example :
 
 /-! ## C08 (Loader part): taking a state changes nothing; loading is repeatable -/
 
-/-- **Extra `state_dict()` calls on an existing iterator change nothing**: removing all `peek`s from a
-history (after any prefix `H`) leaves every other observation as it was. -/
-theorem get_transparent_partial (root : Node) (restart : Bool) (hl : Lawful root) (hne : NoError root)
+/-- **Extra `state_dict()` calls change nothing**, wherever they are made (also before the first `iter()`,
+where the call creates the iterator, and between a `load_state_dict` and the `iter()` that applies it):
+removing all `peek`s from a history (after any prefix `H`) leaves every other observation as it was. -/
+theorem get_transparent (root : Node) (restart : Bool) (hl : Lawful root) (hne : NoError root)
     (H ops : List Op)
-    (hpk : peekOk root restart (exec root restart (Sys.init root) H) ops = true)
     (g1 : good root restart (exec root restart (Sys.init root) H) ops = true)
     (g2 : good root restart (exec root restart (Sys.init root) H) (erasePeek ops) = true) :
     obsSkipPeek root restart (exec root restart (Sys.init root) H) ops =
       obs root restart (exec root restart (Sys.init root) H) (erasePeek ops) := by
   obtain ⟨L⟩ := lawSpec_of hl
-  exact transparent_aux L hne restart ops (inv_exec L hne restart H (lr_init L)) hpk g1 g2
+  exact transparent_aux L hne restart ops (Or.inl (inv_exec L hne restart H (lr_init L))) g1 g2
 
-/-- The same without the restriction to `peek`s that find an iterator. -/
-def get_transparent_statement : Prop :=
-  ∀ (root : Node) (restart : Bool), Lawful root → NoError root → ∀ H ops : List Op,
-    good root restart (exec root restart (Sys.init root) H) ops = true →
-    good root restart (exec root restart (Sys.init root) H) (erasePeek ops) = true →
-    obsSkipPeek root restart (exec root restart (Sys.init root) H) ops =
-      obs root restart (exec root restart (Sys.init root) H) (erasePeek ops)
-
-/-- F3: on a new loader, `state_dict(); load_state_dict(t); u = state_dict()` makes `u` the state of the
-iterator the first call created; without the first call `u` is (equivalent to) `t`. -/
-theorem get_transparent_statement_false : ¬ get_transparent_statement := by
-  intro h
-  have h1 := h (epochSrc four) true (src_lawful _) (epochSrc_noError _)
-    [.iter, .next, .next, .stateDict, .fresh]
-    [.peek, .load 0, .stateDict, .fresh, .load 1, .iter, .next] (by decide) (by decide)
-  have h2 := congrArg (List.map Obs.code) h1
-  revert h2
-  decide
+/-- Non-vacuity, and the regression witness of the repaired defect F3 (`state_dict(); load_state_dict(t);
+u = state_dict()`: `u` must be `t`, not the state of the iterator the first call created): with and
+without the `peek`, loading `u` continues with item 2. -/
+example :
+    let root := epochSrc four
+    let H : List Op := [.iter, .next, .next, .stateDict, .fresh]
+    let ops : List Op := [.peek, .load 0, .stateDict, .fresh, .load 1, .iter, .next]
+    good root true (exec root true (Sys.init root) H) ops = true ∧
+      good root true (exec root true (Sys.init root) H) (erasePeek ops) = true ∧
+      (obsSkipPeek root true (exec root true (Sys.init root) H) ops).map Obs.code = [0, 1, 0, 0, 0, 12] ∧
+      (obs root true (exec root true (Sys.init root) H) (erasePeek ops)).map Obs.code = [0, 1, 0, 0, 0, 12] := by
+  refine ⟨?_, ?_, ?_, ?_⟩ <;> decide
 
 example :
     let root := epochSrc four
-    let ops : List Op := [.iter, .peek, .next, .peek, .stateDict, .peek, .next, .load 0, .peek, .iter, .next]
-    peekOk root true (Sys.init root) ops = true ∧ good root true (Sys.init root) ops = true ∧
-      good root true (Sys.init root) (erasePeek ops) = true ∧
+    let ops : List Op := [.peek, .iter, .peek, .next, .peek, .stateDict, .peek, .next, .load 0, .peek, .iter, .next]
+    good root true (Sys.init root) ops = true ∧ good root true (Sys.init root) (erasePeek ops) = true ∧
       (obsSkipPeek root true (Sys.init root) ops).map Obs.code = [0, 10, 1, 11, 0, 0, 11] := by
-  refine ⟨?_, ?_, ?_, ?_⟩ <;> decide
+  refine ⟨?_, ?_, ?_⟩ <;> decide
 
 /-- **Loading a state dict gives the same continuation every time**: whatever a loader did between two
 points `a = after H₁` and `b = after H₁ ++ H₂` (no state dict recorded in `H₂`, so the token lists are
